@@ -169,12 +169,140 @@ def run(tier):
     # d2) the child is killed while a result larger than the pipe buffer is in flight (nobody is reading yet): the
     #     message is cut short on the wire
     killed_mid_send(chk, tier, wd)
+    # d3) the consumer is already blocked waiting for the next result when the worker is ended
+    blocked_consumers(chk, tier, wd)
     # e) remote: child killed while the parent-side forwarding thread is paused at each of its lines
     forwarding(chk, tier, wd)
     cleanup(wd)
     chk.assumptions = ['every input carries a unique id, so a result identifies the input that produced it',
                        'mux consumer bound: 8 s without marker or EOF after the worker is dead = blocked consumer (the peer is dead, nothing can arrive)']
     return chk.finish(min_distinct=60)
+
+
+def blocked_case(spec, log):
+    """A consumer is already blocked waiting for the next result when the worker is ended."""
+    import logging
+    import queue
+    import signal
+    import threading
+    import time
+    logging.disable(logging.CRITICAL)
+    from vlib import vtargets
+    from vlib.wcase import get_class
+    from vlib.common import pid_running
+    from pyworkers.utils import Pipe
+    cls, _ = get_class(spec['cls'])
+    server = None
+    kw = {}
+    if 'Remote' in spec['cls']:
+        from pyworkers.remote_server import spawn_server
+        server = spawn_server(('127.0.0.1', 0))
+        kw['host'] = server.addr
+    if spec['consumer'] == 'mux':
+        kw['results_pipe'] = Pipe()
+    try:
+        w = cls(vtargets.restart_target, **kw)
+        w.enqueue('a')                                       # one ordinary result first
+        w.enqueue('b', kind=('swallow' if spec['target'] == 'swallow' else 'slow' if spec['target'] == 'idle' else 'swallow1'))
+        if spec['target'] == 'idle':
+            pass                                             # after 'b' the worker is idle, waiting for input
+        box = {'got': []}
+
+        def consumer():
+            try:
+                if spec['consumer'] == 'next':
+                    while True:
+                        box['got'].append(w.next_result()[0])
+                elif spec['consumer'] == 'iter':
+                    for v in w.results_iter():
+                        box['got'].append(v[0])
+                    box['end'] = 'stop'
+                else:
+                    import multiprocessing.connection as mpc
+                    ep = w.results_endpoint
+                    while True:
+                        mpc.wait([ep])
+                        try:
+                            msg = ep.recv()
+                        except EOFError:
+                            box['end'] = 'eof'
+                            break
+                        if not msg[1]:
+                            box['end'] = 'marker'
+                            break
+                        box['got'].append(msg[2][0])
+            except queue.Empty:
+                box['end'] = 'Empty'
+            except BaseException as e:  # noqa
+                box['end'] = 'raised:' + type(e).__name__
+
+        t = threading.Thread(target=consumer, daemon=True)
+        t.start()
+        time.sleep(spec.get('settle', 0.9))                  # 'a' (and for idle: 'b') delivered, the consumer is blocked now
+        blocked = t.is_alive()
+        how = spec['how']
+        if how == 'sigkill':
+            os.kill(w.pid, signal.SIGKILL)
+            ret = None
+        else:
+            a = {'timeout': 1}
+            if 'Thread' in spec['cls']:
+                a['force'] = False
+            else:
+                a['force'] = (how == 'force')
+            ret = w.terminate(**a)
+            if ret is False:
+                ret = [ret, w.terminate(**dict(a, timeout=2))]
+        t0 = time.monotonic()
+        dead = w.wait(10)
+        t.join(8)
+        log.ev('blocked', was_blocked=blocked, terminate=ret, dead=dead, released=not t.is_alive(), end=box.get('end'), got=box['got'], waited=round(time.monotonic() - t0, 2),
+               pid_running=(pid_running(w.pid) if w.pid != os.getpid() else None))
+        return {'ok': True}
+    finally:
+        if server is not None:
+            try:
+                server.terminate(timeout=1, force=True)
+            except BaseException:  # noqa
+                pass
+
+
+def blocked_consumers(chk, tier, wd):
+    jobs = []
+    for cls in lp.PERSISTENT:
+        thread = 'Thread' in cls
+        for consumer in ('next', 'iter', 'mux'):
+            for target, how in ((('idle', 'graceful'), ('swallow1', 'graceful')) if thread else
+                                (('idle', 'graceful'), ('idle', 'force'), ('idle', 'sigkill'), ('swallow', 'force'), ('swallow', 'sigkill'), ('swallow1', 'graceful'))):
+                jobs.append(dict(cls=cls, consumer=consumer, target=target, how=how))
+
+    def one(ij):
+        i, sp = ij
+        res = run_case('checks.c06:blocked_case', sp, os.path.join(wd, 'bc%d' % i), timeout=120)
+        cleanup(res['dir'])
+        return sp, res
+
+    for sp, res in pmap(one, list(enumerate(jobs)), 8):
+        ev = [e for e in res['events'] if e.get('ev') == 'blocked']
+        chk.case(('blocked-consumer', sp['cls'], sp['consumer'], sp['target'], sp['how']))
+        chk.count('blocked_consumer_cases')
+        if not ev:
+            chk.inconclusive('blocked-consumer case incomplete', {'spec': sp, 'stderr': res['stderr'][-400:], 'timed_out': res['timed_out']})
+            continue
+        e = ev[0]
+        if not e['was_blocked'] or not e['dead']:
+            chk.count('blocked_consumer_precondition_missed')
+            continue
+        probs = []
+        if not e['released']:
+            probs.append('consumer-blocked-before-the-death-is-never-released')
+        elif e['end'] not in ({'next': ('Empty',), 'iter': ('stop',), 'mux': ('marker', 'eof')}[sp['consumer']]):
+            probs.append('consumer-ended-with-%s' % e['end'])
+        if e['got'] != ['a', 'b'][:len(e['got'])]:
+            probs.append('stream-not-a-prefix')
+        if probs:
+            chk.violation('%s:%s:%s-consumer:%s' % (probs[0], kind_of(sp['cls']), sp['consumer'], sp['how'] + ('-uncooperative' if sp['target'] == 'swallow' else '')),
+                          '%s, %s consumer blocked waiting when the worker (%s target) was ended by %s: %s; %s' % (sp['cls'], sp['consumer'], sp['target'], sp['how'], ', '.join(probs), short(e, 300)), {'spec': sp, 'event': e})
 
 
 def killed_mid_send(chk, tier, wd):
